@@ -21,6 +21,7 @@ func main() {
 		fmt.Println(err)
 		os.Exit(2)
 	}
+	model.InitConstMaps(P)
 	if os.Args[1] == "fields" {
 		dumpFields(P)
 		return
